@@ -34,7 +34,7 @@ def _run_case(i):
     try:
         for calls in case["sequences"]:
             r = drive.run(case["problem"], case["index"], calls, case["solver_kw"], tracked=case["tracked"],
-                          clock_step=case.get("clock_step"))
+                          clock_step=case.get("clock_step"), later_problem=case.get("later_problem", False))
             out["runs"].append({"calls": calls, "events": r["events"], "solutions": r["solutions"],
                                 "stdout": r["stdout"] if case.get("keep_stdout") else ""})
     except Exception as ex:
